@@ -201,8 +201,16 @@ def obs_m2g(smiles, drop, use, api="transform"):
                     p.add_node(n, **{k: d[k] for k in NODE_ATTRS if k in d})
                 for u, v, d in g.edges(data=True):
                     p.add_edge(u, v, **{k: d[k] for k in EDGE_ATTRS if k in d})
-                g = p
-            return [E.obs_mgraph(g)]
+                return [E.obs_mgraph(p)]
+            # light-weight builder (model/C01_Builders.v light_graph): a node may have been created by add_edge only (no attributes)
+            def row(n, d):
+                odd = sorted(set(d) - set(E.NODE_KEYS) - {"neighbors"}) + sorted("missing:" + k for k in set(E.NODE_KEYS) - set(d))
+                r = [n, E.elem_code(d.get("element", "?")), E._bool(d.get("aromatic", False)), E._int(d.get("hcount", -99)),
+                     E._int(d.get("charge", -99)), [[E.elem_code(x) for x in d["neighbors"]]] if "neighbors" in d else [], E._int(d.get("atom_map", -99))]
+                return r + [odd] if odd else r
+            ns = [[n, [row(n, d)] if d else []] for n, d in g.nodes(data=True)]
+            es = [[min(u, v), max(u, v), E.half(d["order"])] for u, v, d in g.edges(data=True)]
+            return [[S(ns), S(es)]]
         conv = MolToGraph(node_attrs=NODE_ATTRS, edge_attrs=EDGE_ATTRS)
         # the converter object is used twice: first on a decoy molecule (state left behind must not leak into the second call)
         conv.transform(sanitized_mol(DECOY), drop_non_aam=False, use_index_as_atom_map=True)
@@ -217,11 +225,12 @@ def obs_m2g(smiles, drop, use, api="transform"):
     return [E.obs_mgraph(g)]
 
 
-def coq_m2g(smiles, drop, use):
+def coq_m2g(smiles, drop, use, api="transform"):
     mol = sanitized_mol(smiles)
     if mol is None:
         return None
-    return "run_m2g %s %s %s" % (E.cb(drop), E.cb(use), coq_rmol(read_rmol(mol)))
+    run = {"light": "run_m2g_light", "detailed": "run_m2g_detailed"}.get(api, "run_m2g")      # the legacy builders have loop models of their own
+    return "%s %s %s %s" % (run, E.cb(drop), E.cb(use), coq_rmol(read_rmol(mol)))
 
 
 # ------------------------------------------------------------------ implicit_hydrogen + GraphToMol alone
